@@ -6,15 +6,17 @@
 //! token roles, copy / rename / delete shapes on three nested keys), the last
 //! from FULL (CORE + every payload size + every multipart split). Each
 //! history is executed on a fresh wrapper and a fresh `InMemory` reference;
-//! after it the read battery runs on the live wrapper (warm cache) and on a
-//! fresh instance over the same inner store (cold cache).
+//! after it the read battery runs on the live wrapper (warm cache), on a
+//! fresh instance over the same inner store (cold cache) and - the gets of
+//! keys the last operation replaced - on an instance whose cache lags one
+//! commit behind.
 
 use serde_json::json;
 use std::collections::{BTreeMap, HashSet};
 use vcore::{Run, Tier, Violation, util};
 use vstore::fix::Wrap;
 use vstore::hist::{LightOut, NodeOut, run_light, run_node};
-use vstore::ops::{Book, Mode, Op, Tok, alphabet, applicable};
+use vstore::ops::{Book, Mode, Op, Tok, alphabet, applicable, odd_token_updates};
 
 const CLOCK_BASE: u64 = 1_700_000_000_000;
 const CLOCK_WINDOW: u64 = 64_000;
@@ -183,7 +185,10 @@ fn main() {
     let alpha: Vec<(Vec<Op>, HashSet<Op>)> = cfgs
         .iter()
         .map(|c| {
-            let full = alphabet(c.wrap.cs(), true);
+            // last position: FULL plus a conditional update with every near
+            // miss of the latest token (`*`, lists, padding, quoting, ...)
+            let mut full = alphabet(c.wrap.cs(), true);
+            full.extend(odd_token_updates(c.wrap.cs()));
             let core: HashSet<Op> = alphabet(c.wrap.cs(), false).into_iter().collect();
             (full, core)
         })
@@ -194,6 +199,8 @@ fn main() {
     );
 
     let threads = util::n_threads();
+    // the lagging instance: quick leaves out the plain bounded-range pairs
+    let lag_all = run.tier.pick(false, true);
     let mut reps: Vec<Rep> = (0..cfgs.len()).map(|i| Rep { cfg: i, hist: vec![], book: Book::default() }).collect();
     let mut tokens: Vec<u128> = Vec::new();
     let mut tolerated: BTreeMap<String, u64> = BTreeMap::new();
@@ -263,6 +270,76 @@ fn main() {
         json!(light_table.iter().map(|(k, (n, d))| json!({"phase": k, "histories": n, "distinct_outcomes": d})).collect::<Vec<_>>()),
     );
 
+    // ---- attribute pass-through: every history over the attribute alphabet
+    {
+        let alpha = vstore::attrs::alphabet();
+        let depth = run.tier.pick(3usize, 4usize);
+        let wraps = run.tier.pick(vec![Wrap::Meta, Wrap::Enc(16)], vec![Wrap::Meta, Wrap::Enc(7), Wrap::Enc(16)]);
+        let mut items: Vec<(usize, Wrap, usize)> = Vec::new();
+        for w in &wraps {
+            for j in 0..alpha.len() {
+                items.push((items.len(), *w, j));
+            }
+        }
+        struct AttrItem {
+            histories: u64,
+            ops: u64,
+            reads: u64,
+            distinct: HashSet<u64>,
+            violations: Vec<(usize, Violation)>,
+        }
+        fn rec(wrap: Wrap, alpha: &[vstore::attrs::AOp], depth: usize, hist: &mut Vec<vstore::attrs::AOp>, base: u64, it: &mut AttrItem) {
+            let out = vstore::attrs::run_history(wrap, hist, base + it.histories * 64_000);
+            it.histories += 1;
+            it.ops += out.ops;
+            it.reads += out.reads;
+            it.distinct.insert(util::fnv64(format!("attrs|{}|{}", wrap.kind(), out.outcome).as_bytes()));
+            let failed = !out.violations.is_empty();
+            for v in out.violations {
+                // one per signature: the shortest history
+                match it.violations.iter_mut().find(|(_, x)| x.signature == v.signature) {
+                    Some(slot) if slot.0 > hist.len() => *slot = (hist.len(), v),
+                    Some(_) => {}
+                    None => it.violations.push((hist.len(), v)),
+                }
+            }
+            // an operation the reference refuses changes nothing: not extended
+            if failed || !out.last_ok || hist.len() >= depth {
+                return;
+            }
+            for op in alpha {
+                hist.push(op.clone());
+                rec(wrap, alpha, depth, hist, base, it);
+                hist.pop();
+            }
+        }
+        let results: Vec<AttrItem> = util::par_map(items, threads, |(idx, wrap, j)| {
+            let mut it = AttrItem { histories: 0, ops: 0, reads: 0, distinct: HashSet::new(), violations: Vec::new() };
+            let base = 2_000_000_000_000u64 + ((idx as u64) << 20) * 64_000;
+            rec(wrap, &alpha, depth, &mut vec![alpha[j].clone()], base, &mut it);
+            it
+        });
+        let mut n = 0u64;
+        let mut found: Vec<(usize, Violation)> = Vec::new();
+        for it in results {
+            n += it.histories;
+            run.add("transitions", it.histories);
+            run.add("traces_validated_against_impl", it.histories);
+            run.add("attribute_histories", it.histories);
+            run.add("evaluations", it.ops + it.reads);
+            run.add("attribute_reads_compared", it.reads);
+            for d in it.distinct {
+                run.distinct(d);
+            }
+            found.extend(it.violations);
+        }
+        found.sort_by_key(|(len, _)| *len); // stable: shortest history first
+        for (_, v) in found {
+            run.violation(v);
+        }
+        run.set("attribute_phase", json!({"ops": alpha.len(), "depth": depth, "wrappers": wraps.iter().map(|w| w.label()).collect::<Vec<_>>(), "histories": n}));
+    }
+
     for depth in 1..=overall_max {
         let parents: Vec<Rep> = reps.drain(..).filter(|r| depth <= cfgs[r.cfg].max_depth).collect();
         if parents.is_empty() {
@@ -307,7 +384,7 @@ fn main() {
                 h.push(op.clone());
                 let clock = CLOCK_BASE + seq * CLOCK_WINDOW;
                 let sample = want_sample && (j % 37 == 5);
-                let o = run_node(cfgs[rep.cfg].wrap, &h, clock, sample);
+                let o = run_node(cfgs[rep.cfg].wrap, &h, clock, sample, lag_all);
                 Child { op_is_core: core.contains(op), op: op.clone(), out: o }
             });
             for ((pi, _), ch) in batch.iter().zip(results) {
@@ -321,6 +398,9 @@ fn main() {
                     run.add("evaluations", ch.out.reads + ch.out.ops);
                     run.add("reads_compared", ch.out.reads);
                     run.add("mutations_compared", ch.out.ops);
+                    run.add("evaluations", ch.out.lag_reads);
+                    run.add("lagging_instance_reads_compared", ch.out.lag_reads);
+                    run.add("lagging_instance_reads_refused_on_cached_commit", ch.out.lag_refused_on_cached_commit);
                     if ch.out.last_class != Some(vstore::fix::Class::Ok) {
                         failing_last += 1;
                     }
@@ -394,15 +474,18 @@ fn main() {
     run.rule(
         "histories = CORE* . FULL over keys {a, a/b, c}: every history up to `exhaustive_depth` mutations is executed; \
          beyond it, one representative history per distinct state (reference content + token-chain shape) is extended, up to `dedup_depth`; \
+         the last position additionally draws a conditional update presenting each of 7 near misses of the key's latest token (`*`, \"<stale>, <latest>\", blank-padded, trailing comma, empty string, quoted, W/\"..\" - besides latest / stale / other key's / fabricated / none): the answer must be the reference's for the same string built from ITS tokens, and only the exact latest token may commit; \
          each history runs on a fresh wrapper + fresh InMemory reference, then the read battery runs on the warm and on a cold wrapper instance; \
+         lagging instance: for every key whose commit the last operation replaced or removed, every get / head / ranged get with every condition of the battery (quick: without the plain bounded-range pairs) and the in-bounds get_ranges calls (quick: those of three ranges) are also asked of an instance whose metadata cache holds the key's PREVIOUS commit while that commit's payload generation is gone (before each request it reads the key through a backend view forked right before the last operation): it must answer what the reference answers now (bytes, range, size, and the latest commit's size / token / timestamp), or refuse the request exactly as `object_store`'s own GetOptions::check_preconditions / GetRange::as_range / range validation decide it on the commit it has cached (counted in lagging_instance_reads_refused_on_cached_commit: cache lag by design, no payload involved) - a request it does not refuse goes for the payload, finds the generation gone, and must be answered, conditions included, from the current commit; \
          distinct = (wrapper config, resulting state, last op shape, its result class); \
          commit times: under the logical clock no commit (put, multipart, copy, rename target; full and light phases, one and two instances) may report a last_modified earlier than the one reported by any earlier commit of the history - the reference stamps every commit, copies included, when it commits; \
+         attribute phase: every history to depth `attribute_phase.depth` over 19 operations on keys a, c (put Overwrite with no / attribute set A / set B, Create with A, Update(latest) with B, multipart with A, copy both ways and onto itself, rename both ways, delete; an operation the reference refuses is not extended): after every operation get, get 0..1 and head-get of both keys through the live and a fresh instance must report the attributes (content type, cache control, user metadata) the reference reports (tags cannot be read back through the API and the reference ignores them: not compared); \
          light phases (no read battery; every mutation class, the CAS / create rule, token freshness and the final content through a fresh instance are checked): token-flow histories (overwrite / Update latest / Update stale / every copy incl. self-copy / rename / delete) over 3 keys and, one deeper, over 2 keys, all exhaustive; two-instance histories over keys a, c where every operation after the first is issued through long-lived instance A or B (every assignment), one InMemory reference receiving all operations - reads through the long-lived instances are not compared (a second instance's cache may lag by design), write-side decisions must equal the reference's; \
          three reference behaviours are normalised and counted in `tolerated_deviations` instead of compared: delete of a missing key (wrapper NotFound, InMemory Ok; store-dependent per object_store docs), self-rename with Overwrite (InMemory's default copy+delete destroys the object; modelled as no change) and Update without e_tag on a present key (InMemory Generic, wrapper Precondition; both reject)",
     );
     run.assume("object_store::memory::InMemory 0.14.1 is the reference semantics, except: delete of a missing key (store-dependent per object_store docs), its self-rename (destroys the object) and the error variant it uses for an Update without e_tag");
     run.assume("tokens are compared by role (latest / stale / other key's / fabricated), never by value; date conditions are built per store from that store's own reported last_modified");
-    run.assume("cache states covered: the instance that made every commit (warm), a fresh instance (cold), and - for mutations only - two long-lived instances used alternately; what a READ through a lagging second instance returns is not judged (cache TTL semantics)");
+    run.assume("cache states covered: the instance that made every commit (warm), a fresh instance (cold), an instance lagging one commit behind on the keys the last operation replaced (get / head / ranged and conditional gets / get_ranges; it may refuse a request on the strength of the cached commit, it may never answer a body or metadata of another commit than the current one), and - for mutations only - two long-lived instances used alternately; listings through a lagging instance are not judged (cache TTL semantics)");
     run.finish();
 }
 
@@ -410,8 +493,19 @@ fn replay(mut run: Run, file: &std::path::Path) -> ! {
     let doc: serde_json::Value = serde_json::from_slice(&std::fs::read(file).expect("read replay")).expect("json");
     let r = &doc["replay"];
     let wrap: Wrap = serde_json::from_value(r["wrap"].clone()).expect("wrap");
-    let hist: Vec<Op> = serde_json::from_value(r["history"].clone()).expect("history");
     let clock = r["clock"].as_u64().unwrap_or(CLOCK_BASE);
+    if r["mode"].as_str() == Some("attrs") {
+        let hist: Vec<vstore::attrs::AOp> = serde_json::from_value(r["history"].clone()).expect("history");
+        let out = vstore::attrs::run_history(wrap, &hist, clock);
+        run.add("traces_validated_against_impl", 1);
+        run.add("evaluations", out.ops + out.reads);
+        for v in out.violations {
+            println!("  -> {}", v.summary);
+            run.violation(v);
+        }
+        run.finish();
+    }
+    let hist: Vec<Op> = serde_json::from_value(r["history"].clone()).expect("history");
     if r["mode"].as_str() == Some("light") {
         let who: Vec<u8> = serde_json::from_value(r["who"].clone()).expect("who");
         let out = run_light(wrap, &hist, &who, clock);
@@ -424,7 +518,7 @@ fn replay(mut run: Run, file: &std::path::Path) -> ! {
         run.finish();
     }
     println!("replaying {} on {}", hist.iter().map(|o| o.short()).collect::<Vec<_>>().join("; "), wrap.label());
-    let out = run_node(wrap, &hist, clock, true);
+    let out = run_node(wrap, &hist, clock, true, true);
     run.add("traces_validated_against_impl", 1);
     run.add("evaluations", out.reads + out.ops);
     for v in out.violations {
